@@ -71,7 +71,7 @@ def run_c02(pid):
     rnd = random.Random(seed() * 1009 + 2)
     jobs = corpus.small_scope(wd, t, rnd)
     jobs += corpus.short_final_blocks(t, rnd)
-    jobs += corpus.large_inputs(t, rnd, 260 if t == "quick" else 2500, big=2 if t == "quick" else 12)
+    jobs += corpus.large_inputs(t, rnd, 190 if t == "quick" else 2500, big=2 if t == "quick" else 12)
     jobs += corpus.table_block_sizes(t, rnd, limit=1200 if t == "quick" else 9300)
     jobs += corpus.silence_histories(t, rnd)
     jobs += corpus.rail_alternations(t, rnd)
